@@ -116,13 +116,13 @@ Section Gauge.
 Variable bname : bytes.
 Variable store : ident -> lookup.
 Variable async_store : bool.
-Notation Good := (Good store async_store).
-Notation Good0 := (Good0 store async_store).
+Notation Good := (Good (srow store) async_store).
+Notation Good0 := (Good0 (srow store) async_store).
 
 Lemma unsub_all_PI l : forall q s, Inv s -> PI s -> PI (unsub_all q l s).
 Proof.
   induction l as [|c l IH]; intros q s I P; cbn; [exact P|].
-  apply IH; [apply (unsub_raw_inv store); exact I|apply unsub_raw_PI; assumption].
+  apply IH; [apply (unsub_raw_inv (srow store)); exact I|apply unsub_raw_PI; assumption].
 Qed.
 
 Lemma lostp_PI q s : Inv s -> PI s -> PI (lostp q s).
@@ -138,7 +138,7 @@ Lemma deliver_PI i c dt s d : Good0 s -> PI s -> copen (conns s d) = true ->
   exists s', deliver i c dt (Ok s) d = Ok s' /\ Good0 s' /\ PI s' /\ (forall q, q <> d -> conns s' q = conns s q).
 Proof.
   intros G P Ho. unfold deliver. destruct (closing (conns s d)) eqn:Ec.
-  - rewrite Ho. destruct (lostp_good0 store async_store d s G Ho) as (G' & _ & _ & Fo & _).
+  - rewrite Ho. destruct (lostp_good0 (srow store) async_store d s G Ho) as (G' & _ & _ & Fo & _).
     exists (lostp d s). split; [reflexivity|]. split; [exact G'|]. split; [|exact Fo].
     apply lostp_PI; [apply G|exact P].
   - exists (wr d (FPub i c dt) s). split; [reflexivity|]. split; [apply wr_good0; exact G|]. split; [apply wr_PI; exact P|].
